@@ -40,6 +40,13 @@ pub enum Op {
     Remove { ids: Vec<u8> },
     /// build a store through protobuf decode (ComputeNow + try_validate); replaces the store
     FromProto { batch: Vec<Rec> },
+    /// add through the JSON route (add_entities_from_json_value)
+    AddJson { batch: Vec<Rec> },
+    /// build through the JSON route (from_json_value); replaces the store
+    FromJson { batch: Vec<Rec> },
+    /// replace the store by from_json_value(to_json_value()): the JSON form lists every ancestor
+    /// under "parents", so afterwards every ancestor is a direct parent
+    JsonRoundTrip,
     /// core from_entities(.., EnforceAlreadyComputed); checked, store unchanged
     Enforce { batch: Vec<RecTc> },
     /// core add_entities(.., EnforceAlreadyComputed) on the current store; checked, store unchanged
@@ -129,6 +136,10 @@ fn mk_core_entity(r: &RecTc) -> cast::Entity {
     let parents: HashSet<cast::EntityUID> = r.parents.iter().map(|p| cuid(*p)).collect();
     let indirect: HashSet<cast::EntityUID> = r.indirect.iter().filter(|p| !r.parents.contains(p)).map(|p| cuid(*p)).collect();
     cast::Entity::new_with_attr_partial_value(cuid(r.id), [], indirect, parents, [])
+}
+
+fn rec_json(r: &Rec) -> serde_json::Value {
+    serde_json::json!({"uid": {"type": "E", "id": format!("{}", r.id)}, "attrs": {}, "parents": r.parents.iter().map(|p| serde_json::json!({"type": "E", "id": format!("{p}")})).collect::<Vec<_>>()})
 }
 
 fn id_of(u: &EntityUid) -> Option<u8> {
@@ -297,6 +308,34 @@ impl Runner<'_> {
                     predicted = m;
                     dup = d;
                     res = store.clone().add_entities(batch.iter().map(mk_entity), None);
+                }
+                Op::AddJson { batch } => {
+                    opname = "add_json";
+                    named.extend(batch.iter().map(|r| r.id));
+                    let (m, d) = model_add(&g, batch);
+                    predicted = m;
+                    dup = d;
+                    res = store.clone().add_entities_from_json_value(serde_json::Value::Array(batch.iter().map(rec_json).collect()), None);
+                }
+                Op::FromJson { batch } => {
+                    opname = "from_json";
+                    named.extend(batch.iter().map(|r| r.id));
+                    let (m, d) = model_add(&Graph::new(), batch);
+                    predicted = m;
+                    dup = d;
+                    res = Entities::from_json_value(serde_json::Value::Array(batch.iter().map(rec_json).collect()), None);
+                }
+                Op::JsonRoundTrip => {
+                    opname = "json_round_trip";
+                    let mut m = Graph::new();
+                    for k in g.keys() {
+                        m.insert(*k, reach(&g, *k));
+                    }
+                    predicted = m;
+                    res = match store.to_json_value() {
+                        Ok(v) => Entities::from_json_value(v, None),
+                        Err(e) => Err(e),
+                    };
                 }
                 Op::Upsert { batch } => {
                     opname = "upsert";
@@ -599,7 +638,7 @@ impl World for Hierarchy {
         let pool = rng.range(3, MAX_POOL) as u8;
         let nops = rng.range(3, 30);
         // swarm: op mix weights drawn per run
-        let w: Vec<u32> = (0..7).map(|i| if rng.pct(20) { 0 } else { [2u32, 8, 6, 6, 1, 2, 2][i] * rng.range(1, 3) as u32 }).collect();
+        let w: Vec<u32> = (0..10).map(|i| if rng.pct(20) { 0 } else { [2u32, 8, 6, 6, 1, 2, 2, 3, 1, 1][i] * rng.range(1, 3) as u32 }).collect();
         let mut ops = vec![];
         // the generator tracks an approximate model only to bias choices (cycles, alternative paths)
         let mut g = Graph::new();
@@ -686,11 +725,35 @@ impl World for Hierarchy {
                     let shape = rng.below(4);
                     ops.push(Op::Enforce { batch: closure_batch(&mut rng, pool, shape) });
                 }
-                _ => {
+                6 => {
                     let shape = rng.below(4);
                     let mut b = closure_batch(&mut rng, pool, shape);
                     b.truncate(rng.range(1, 3));
                     ops.push(Op::EnforceAdd { batch: b });
+                }
+                7 => {
+                    let b = gen_batch(&mut rng, pool, &g, 4);
+                    let (m, _) = model_add(&g, &b);
+                    if !has_cycle(&m) {
+                        g = m;
+                    }
+                    ops.push(Op::AddJson { batch: b });
+                }
+                8 => {
+                    let b = gen_batch(&mut rng, pool, &g, 5);
+                    let (m, _) = model_add(&Graph::new(), &b);
+                    if !has_cycle(&m) {
+                        g = m;
+                    }
+                    ops.push(Op::FromJson { batch: b });
+                }
+                _ => {
+                    let mut m = Graph::new();
+                    for k in g.keys() {
+                        m.insert(*k, reach(&g, *k));
+                    }
+                    g = m;
+                    ops.push(Op::JsonRoundTrip);
                 }
             }
         }
@@ -788,6 +851,23 @@ impl World for Hierarchy {
                         }
                     }
                 }
+                Op::AddJson { batch } => {
+                    variants.push(Op::Add { batch: batch.clone() });
+                    for b in list_shrinks(batch) {
+                        if !b.is_empty() {
+                            variants.push(Op::AddJson { batch: b });
+                        }
+                    }
+                }
+                Op::FromJson { batch } => {
+                    variants.push(Op::FromEntities { batch: batch.clone() });
+                    for b in list_shrinks(batch) {
+                        if !b.is_empty() {
+                            variants.push(Op::FromJson { batch: b });
+                        }
+                    }
+                }
+                Op::JsonRoundTrip => {}
                 Op::Remove { ids } => {
                     for b in list_shrinks(ids) {
                         if !b.is_empty() {
@@ -825,7 +905,7 @@ impl World for Hierarchy {
         out
     }
     fn rule(&self) -> &'static str {
-        "cases = seeded histories of from_entities/add/upsert/remove/from_proto/enforce over a pool of 3..10 ids (cycles, diamonds, dangling parents, duplicates), each executed under 1..4 owned hash orders; evaluations = individual comparisons of ancestors()/is_ancestor_of()/`principal in`/enforce verdicts with the reachability model; non-trivial = history with >=1 successful op that changed the ancestor set of an entity not named in the op; distinct by fingerprint of the sequence of model graphs"
+        "cases = seeded histories of from_entities/add/upsert/remove/from_proto/from_json/add_json/json round trip/enforce over a pool of 3..10 ids (cycles, diamonds, dangling parents, duplicates), each executed under 1..4 owned hash orders; evaluations = individual comparisons of ancestors()/is_ancestor_of()/`principal in`/enforce verdicts with the reachability model; non-trivial = history with >=1 successful op that changed the ancestor set of an entity not named in the op; distinct by fingerprint of the sequence of model graphs"
     }
     fn real_components(&self) -> Vec<&'static str> {
         vec!["cedar_policy::Entities (from_entities, add_entities, upsert_entities, remove_entities, ancestors, is_ancestor_of, iter, len)", "cedar_policy_core::entities::Entities with TCComputation::EnforceAlreadyComputed", "<Entities as Protobuf>::{encode,decode}", "cedar_policy::Authorizer::is_authorized (eval_in)", "transitive_closure::{compute_tc, repair_tc, enforce_tc_and_dag}"]
